@@ -16,7 +16,7 @@ def nf_tree(fn, ctx):
     g = copy.deepcopy(fn)
     equiv._Strip().visit(g)
     equiv.Inliner(ctx, g).run()
-    norm = equiv.Normaliser()
+    norm = equiv.Normaliser(bound_names=equiv._param_names(g), list_locals=equiv._list_locals(g))
     prev = None
     for _ in range(8):
         g = equiv._Expr().visit(g)
